@@ -313,6 +313,12 @@ def check_doc(c, sc, d, res, marks):
                                 predict_add_mark(model, d, a, b, m), res, "c13.add_mark", n, False)
                 run_and_compare(c, d, node, {"op": "remove_mark", "from": a, "to": b, "mark": m},
                                 predict_remove_mark(model, d, a, b, mark=m), res, "c13.remove_mark", n, False)
+                # the primitive steps over the same (possibly multi-block) range have the same documented effect
+                if a < b:
+                    run_and_compare(c, d, node, {"op": "add_mark_step", "from": a, "to": b, "mark": m},
+                                    predict_add_mark(model, d, a, b, m), res, "c13.add_mark", n, False)
+                    run_and_compare(c, d, node, {"op": "remove_mark_step", "from": a, "to": b, "mark": m},
+                                    predict_remove_mark(model, d, a, b, mark=m), res, "c13.remove_mark", n, False)
             for mt in model.mark_names[:4]:
                 run_and_compare(c, d, node, {"op": "remove_mark", "from": a, "to": b, "mark_type": mt},
                                 predict_remove_mark(model, d, a, b, mark_type=mt), res, "c13.remove_mark.type", n, False)
